@@ -380,6 +380,7 @@ class SwitchRouterNode(RouterNode):
                 mainarg_groups=[first_case.arguments[1]] if first_case else [],
                 obj_id=(first_case.arguments[0] if first_case else None)
                 or "",  # obj_id is not yet a list.
+                save_name=self.router.result_name or "",
             )
         else:
             super().initiate_row_models(
@@ -387,6 +388,7 @@ class SwitchRouterNode(RouterNode):
                 parent_edge,
                 type="split_by_value",
                 mainarg_expression=self.router.operand,
+                save_name=self.router.result_name or "",
             )
 
 
@@ -433,6 +435,7 @@ class RandomRouterNode(RouterNode):
             current_row_id,
             parent_edge,
             type="split_random",
+            save_name=self.router.result_name or "",
         )
 
 
